@@ -152,7 +152,7 @@ def _gen_table_history(rng, ecu, n):
             reqs += [("pdu", bytes([0x10, s])), ("pdu", bytes([0x27, lvl])), ("key", lvl + 1, rng.random() < 0.85), a,
                      ("pdu", bytes([0x10, s])), rd(True), a]
         elif r < 0.40:  # reset and poll until the ECU is back
-            reqs += [("pdu", bytes([0x11, rng.choice([1, 2, 3])]))] + [("pdu", b"\x3e\x00")] * (ecu.boot + rng.choice([1, 2]))
+            reqs += [("pdu", bytes([0x10, s])), ("pdu", bytes([0x11, rng.choice([1, 2, 3, 4, 5])]))] + [("pdu", b"\x3e\x00")] * (ecu.boot + rng.choice([1, 2])) + [rd(False)]
         elif r < 0.50:
             reqs += [("pdu", b"\x3e\x80")] * rng.choice([1, 2, 3]) + [("pdu", b"\x3e\x00")]
         elif r < 0.60:
